@@ -240,10 +240,10 @@ func goLzmaRead(data []byte, dictCap int, d time.Duration) *readTrace {
 
 // modelRead is the parsed reply of the driver's *read commands.
 type modelRead struct {
-	Class string
-	Pos   int
-	Out   []byte
-	Info  string
+	Class  string
+	Pos    int
+	Out    []byte
+	Info   string
 	Detail string
 }
 
